@@ -1,8 +1,10 @@
 """Orchestration of one property check (see bin/check)."""
 import os, sys, json, time, re, hashlib, subprocess, fcntl, shutil, glob, signal
 
-ROOT = '/verif'
-REPO = '/repo'
+# ROOT is where this file lives (/verif); REPO is /repo.  Both can be redirected only for the mutation-testing
+# lab (bin/lab: a snapshot of /verif run against a scratch clone of /repo); registered checks never set these.
+ROOT = os.environ.get('FG_VERIF_ROOT', '/verif')
+REPO = os.environ.get('FG_REPO', '/repo')
 CACHE = os.path.join(ROOT, '.cache')
 COQ = os.path.join(ROOT, 'coq')
 HARNESS = os.path.join(ROOT, 'harness')
